@@ -118,8 +118,61 @@ def draw_vc(ntm, nfm, with_lengths):
               timeout_ms=60000)
 
 
+def apply_vc(time_masks, freq_masks):
+    """P rung: spec_augment_apply_parameters without warps, for SYMBOLIC batch size, frames, coefficients and NUMBERS of masks:
+    an entry is zeroed exactly when a drawn time mask covers its frame or a drawn frequency mask covers its coefficient, and is the
+    input's entry otherwise; the result has the input's shape. any(dim) has the assumed contract 'true iff some position is'."""
+    import pydrobert.torch._img as IMG
+    from vf.pyvc import symtensor as stn
+
+    NB, TT, FF, MT, MF, N0, T0, F0 = z3.Ints("N T F num_time_masks num_freq_masks n0 t0 f0")
+    X = z3.Function("feats", z3.IntSort(), z3.IntSort(), z3.IntSort(), z3.RealSort())
+    TS = z3.Function("time_mask_start", z3.IntSort(), z3.IntSort(), z3.IntSort())
+    TW = z3.Function("time_mask_width", z3.IntSort(), z3.IntSort(), z3.IntSort())
+    FS = z3.Function("freq_mask_start", z3.IntSort(), z3.IntSort(), z3.IntSort())
+    FW = z3.Function("freq_mask_width", z3.IntSort(), z3.IntSort(), z3.IntSort())
+    name = "spec_augment_apply_parameters[symbolic N, T, F and mask counts; time masks=%s, freq masks=%s, no warp]" % (time_masks, freq_masks)
+    m = z3.Int("m_q")
+
+    def thunk(I):
+        I.stubs.update(stn.stubs())
+        I.contracts["pydrobert.torch._img._spec_augment_check_input"] = lambda I2, a, k: None
+        feats = stn.ST((NB, TT, FF), lambda a, b, c: X(ip.to_z3(a), ip.to_z3(b), ip.to_z3(c)), "float")
+        empty = ct.CT(ct.np.empty((0,), dtype=object), "float")
+        mk = lambda fn, cnt: stn.ST((NB, cnt), lambda a, b: fn(ip.to_z3(a), ip.to_z3(b)), "long")
+        t_0, t = (mk(TS, MT), mk(TW, MT)) if time_masks else (empty, empty)
+        f_0, f = (mk(FS, MF), mk(FW, MF)) if freq_masks else (empty, empty)
+        I.ex.ghost["feats"] = feats
+        return I.call(IMG.spec_augment_apply_parameters, [feats, (empty, empty, empty, empty, t_0, t, f_0, f), 1], {})
+
+    def post(p):
+        if not api.returns(p):
+            return False
+        out = p.value
+        if not hasattr(out, "elem"):
+            return [("result_is_a_tensor", z3.BoolVal(False))]
+        tm = z3.Exists([m], z3.And(0 <= m, m < MT, TS(N0, m) <= T0, T0 < TS(N0, m) + TW(N0, m))) if time_masks else z3.BoolVal(False)
+        fm = z3.Exists([m], z3.And(0 <= m, m < MF, FS(N0, m) <= F0, F0 < FS(N0, m) + FW(N0, m))) if freq_masks else z3.BoolVal(False)
+        e = ip.to_z3(out.elem(N0, T0, F0))
+        shape = tuple(out.shape)
+        return [("result_shape", z3.And(z3.BoolVal(len(shape) == 3), ip.to_z3(shape[0]) == NB, ip.to_z3(shape[1]) == TT, ip.to_z3(shape[2]) == FF)),
+                ("masked_entries_are_zero", z3.Implies(z3.Or(tm, fm), e == 0)),
+                ("other_entries_are_the_input's", z3.Implies(z3.Not(z3.Or(tm, fm)), e == X(N0, T0, F0)))]
+
+    pre = [NB >= 1, TT >= 1, FF >= 1, MT >= 1, MF >= 1, 0 <= N0, N0 < NB, 0 <= T0, T0 < TT, 0 <= F0, F0 < FF]
+    return VC("C08.P.apply_masks", name, M, "spec_augment_apply_parameters", thunk, pre=pre, posts=[("zeroes_exactly_the_masked_bands", post)],
+              inputs={"N": NB, "T": TT, "F": FF, "num_time_masks": MT, "num_freq_masks": MF}, timeout_ms=30000,
+              twins=[("everything_zeroed", lambda p: ip.to_z3(p.value.elem(N0, T0, F0)) == 0 if api.returns(p) and hasattr(p.value, "elem") else None)],
+              assumptions=["any over a symbolic extent: true iff some position in range is (assumed contract); tensors as index functions (vf/pyvc/symtensor.py)",
+                           "no warp drawn (empty warp parameters): the warp path is numerical (grid_sample) and is the bounded driver's", "input validation assumed passed"])
+
+
 PA, PB, PC = z3.Reals("lemma_x lemma_y lemma_z")
 IA, IB, IC = z3.Ints("lemma_i lemma_j lemma_k")
+
+
+def apply_vcs(ctx):
+    return [apply_vc(True, True), apply_vc(True, False), apply_vc(False, True), apply_vc(False, False)]
 
 
 def vcs(ctx):
